@@ -7,7 +7,7 @@ from sa.pathsum import summaries
 from .common import resolve_local, namespace_from_schema_name, assigned_values, analysis, names_in, ends_in_raise, str_consts_compared, eq_texts, true_facts
 
 PROP = "C19"
-TECHNIQUE = "error-mapping discipline of the repository and the retry loop (which handler re-raises which exception); CFG order of the single-injection bookkeeping; sibling agreement of the two schema walkers (_inject_schema vs _parse_schema: reference qualification, namespace tracking, kinds); shared name table in ordered loading"
+TECHNIQUE = "error-mapping discipline of the repository and the retry loop; CFG order of the single-injection bookkeeping; sibling agreement of the two schema walkers (reference qualification, namespace provenance by reaching definitions, kinds); threading of the injected flag through sibling positions; per-path summary of the ordered loader's result; effect analysis restricted to the loader (the caller's name table is never rolled back)"
 LEVEL_TEXT = (
     "Static analysis of the repository loader: the flat repository builds <dir>/<name>.avsc and maps I/O and JSON errors to "
     "SchemaRepositoryError; in the parse/load/inject retry loop a failed load re-raises the outer UnknownType (naming the missing type); "
